@@ -321,33 +321,3 @@ Proof.
   - rewrite app_nth2 in Hi by exact Ge. rewrite nth_repeat in Hi. discriminate.
 Qed.
 End Run.
-
-(* kalign's built-in schemes (Generated/Tables.v, exact values of the binary32 entries) *)
-From KV Require Import Base Params.
-Lemma dim_of_le23 s : (dim_of s <= 23)%nat.
-Proof. destruct s; vm_compute; lia. Qed.
-
-Theorem progressive_copies_default_schemes s m gpo gpe tgpe x n tasks out :
-  scheme_of s = Some (m, gpo, gpe, tgpe) ->
-  Forall (fun c => (Z.to_nat c <? dim_of s)%nat = true) x -> (1 <= length x)%nat ->
-  progressive (AX unitX) (PX unitX m gpo gpe tgpe) (repeat x n) tasks = Some out ->
-  Forall (diag_entry unitX x) out.
-Proof.
-  intros Hs Hx HL. 
-  apply (progressive_copies unitX ltac:(unfold unitX, KX; lia) m gpo gpe tgpe (gam_of (dim_of s) m gpo gpe tgpe) (dim_of s) (mx_of m)); try assumption; [|apply dim_of_le23].
-  pose proof default_schemes_ok as H. rewrite forallb_forall in H.
-  assert (Hin : In s [PS_DNA; PS_DNA_INTERNAL; PS_RNA; PS_PROTEIN; PS_GON]) by (destruct s; cbn; tauto).
-  specialize (H s Hin). unfold default_scheme_ok in H. rewrite Hs in H. exact H.
-Qed.
-
-(* the hypothesis "the run returns" is met: three copies of a nucleotide string with two ambiguity codes, two merges
-   (sequence-sequence, then sequence-profile), under the built-in 'dna' scheme, evaluated in exact arithmetic *)
-Example progressive_copies_instance :
-  match scheme_of PS_DNA with
-  | Some (m, gpo, gpe, tgpe) =>
-    let x := [0; 1; 4; 2; 3; 3; 4]%Z in
-    option_map (map (fun e => (snd (fst (fst e)), snd (fst e)))) (progressive (AX unitX) (PX unitX m gpo gpe tgpe) [x; x; x; x] [(0, 1, 4); (2, 3, 5); (4, 5, 6)]%nat)
-    = Some [(diag 7, repeat 0%Z 7); (diag 7, repeat 0%Z 7); (diag 7, repeat 0%Z 7)]
-  | None => False
-  end.
-Proof. vm_compute. reflexivity. Qed.
